@@ -426,6 +426,19 @@ func (P *Program) resolveType(t *TypeExpr, pkgPath string) (types.Type, error) {
 				}
 			}
 		}
+		// the name may be the import alias or the last path element of a package imported by the contract's package
+		if cur := P.byPath[pkgPath]; cur != nil {
+			for path, imp := range cur.Imports {
+				if imp.Types == nil || !(imp.Name == t.Pkg || strings.HasSuffix(path, "/"+t.Pkg)) {
+					continue
+				}
+				if obj := imp.Types.Scope().Lookup(t.Name); obj != nil {
+					if tn, ok := obj.(*types.TypeName); ok {
+						return tn.Type(), nil
+					}
+				}
+			}
+		}
 		return nil, fmt.Errorf("unknown type %s.%s", t.Pkg, t.Name)
 	}
 	return nil, fmt.Errorf("bad type expr")
